@@ -7,6 +7,7 @@ package absnfs
 import (
 	"encoding/json"
 	"strings"
+	"time"
 
 	"github.com/absfs/absnfs/internal/verif/vsched"
 )
@@ -43,7 +44,7 @@ func init() {
 		rule: "stateless model checking (controlled scheduler, source-instrumented server): a WRITE through HandleCall races UpdatePolicyOptions(ReadOnly=true) (C16 scenarios S1, S4 with the request's own timeout allowed to fire early, thorough: S3 with two racing updates); every backend call is a scheduling point; every choice sequence within D-bound 3 (thorough D-bound 4, P-bound 3). Oracle: once the update that establishes read-only has returned, no modifying backend call is issued by any request, including one that was admitted before the switch.",
 		assumptions: []string{"scheduling points are the synchronisation operations of the instrumented package plus every backend call"},
 		run: func(c *vCtx) {
-			vSchedRunPlans(c, "C08", c08ConcScenarios(c.thorough()), []vPlan{{"D", 3}}, []vPlan{{"D", 4}, {"P", 3}})
+			vSchedRunBudget(c, "C08", c08ConcScenarios(c.thorough()), []vPlan{{"D", 3}}, []vPlan{{"D", 4}, {"P", 3}}, 15*time.Minute)
 		},
 		replay: func(c *vCtx, raw json.RawMessage) { vSchedReplay(c, "C08", c08ConcScenarios(true), raw) },
 	})
